@@ -155,12 +155,26 @@ def drums(ctx, fi):
   ok = len(rebuilt) == 1 and [norm_text(x) for x in rebuilt[0].body] == ['del ns.notes[:]', 'ns.notes.extend(%s)' % lst]
   ctx.ob('DRUM/rebuild', fi, rebuilt[0] if rebuilt else fn, ok, 'when notes were deleted the note list is rebuilt from the kept notes' if ok else
          'the note list is not rebuilt from exactly the kept notes when some were deleted', construct='if deleted: del notes[:]; notes.extend(kept)')
-  red = [s for s in keep.body if isinstance(s, ast.Assign) and norm_text(s.targets[0]) == 'end_time']
-  ok = len(red) == 1 and isinstance(red[0].value, ast.Call) and dotted(red[0].value.func) == 'max' and \
-      set(norm_text(a) for a in red[0].value.args) == {'end_time', '%s.end_time' % v}
+  kept_total_time(ctx, fi, 'DRUM/total-time')
+
+
+def kept_total_time(ctx, fi, rule):
+  """transpose_note_sequence recomputes total_time: it must be the max end over exactly the kept notes (drum notes
+  included), i.e. the max-reduction sits directly in the keep branch.  Shared with C11 (total_time covers every note)."""
+  fn = fi.node
+  loop = next((n for n in fn.body if isinstance(n, ast.For) and norm_text(n.iter).endswith('.notes')), None)
+  ctx.require(loop is not None, 'transpose_note_sequence: note loop not found')
+  v = loop.target.id
+  keep = next((s for s in loop.body if isinstance(s, ast.If) and s.orelse), None)
+  ctx.require(keep is not None, 'transpose_note_sequence: keep/delete branch not found')
   tt = [s for s in fn.body if isinstance(s, ast.Assign) and norm_text(s.targets[0]).endswith('.total_time')]
-  ok = ok and len(tt) == 1 and norm_text(tt[0].value) == 'end_time'
-  ctx.ob('DRUM/total-time', fi, tt[0] if tt else fn, ok, 'total_time is the max end of the kept notes' if ok else 'total_time is not the max end over exactly the kept notes',
+  acc = norm_text(tt[0].value) if len(tt) == 1 and isinstance(tt[0].value, ast.Name) else None
+  red = [s for s in keep.body if isinstance(s, ast.Assign) and acc is not None and norm_text(s.targets[0]) == acc]
+  ok = len(red) == 1 and isinstance(red[0].value, ast.Call) and dotted(red[0].value.func) == 'max' and \
+      set(norm_text(a) for a in red[0].value.args) == {acc, '%s.end_time' % v}
+  # no other update of the accumulator inside the loop (e.g. one restricted to pitched notes)
+  ok = ok and len([s for s in U.walk_stmts(loop) for (t, _v, _o) in U.store_targets(s) if isinstance(t, ast.Name) and t.id == acc]) == 1
+  ctx.ob(rule, fi, tt[0] if tt else fn, ok, 'total_time is the max end of the kept notes' if ok else 'total_time is not the max end over exactly the kept notes (a kept note, e.g. a drum note, may end after total_time)',
          construct='total_time = max end_time of kept notes')
 
 
